@@ -260,6 +260,8 @@ def check_config(res, d):
                 if sum(1 for f in res.failures if f["key"].startswith("C03:no-termination")) >= MAX_TIMEOUTS:
                     raise Abort()
                 return "failed"
+    except Abort:
+        raise
     except ValueError as ex:
         # the documented "no valid start or end positions" / component-too-small error: configuration outside the quantifier
         res.seen(("skipped", ckey), nontrivial=False)
@@ -370,21 +372,25 @@ def run(tier, seed):
 
 
 def replay(check, inp):
-    """regenerate the recorded configuration with the real code (serial: deterministic; pools: first with the recorded
-    worker numbering, then five fresh pools) and
-    re-check every element; True iff no element violates the item contract now"""
+    """regenerate the recorded configuration with the real code and re-check every element; True iff nothing violates the
+    item contract now.  Serial generation is deterministic, one run.  Pool generation is not reproducible by construction
+    (worker seeds depend on the worker number, and python's `random` - used by the dfs generators - is reseeded from OS
+    entropy in every forked child), so: first a pool with the recorded worker numbering, then up to 24 fresh pools,
+    stopping at the first violation."""
     warnings.simplefilter("ignore")
     res = BoundedResult("replay", "replay")
     d = norm_cfg(inp["cfg"])
-    for attempt in range(6 if d["parallel"] else 1):
+    for attempt in range(25 if d["parallel"] else 1):
         if attempt == 0 and d["parallel"] and inp.get("proc_counter") is not None:
-            _set_proc_counter(inp["proc_counter"])  # same worker numbers, hence the same per-worker seeds, as in the recorded run
+            _set_proc_counter(inp["proc_counter"])  # same worker numbers, hence the same numpy seeds, as in the recorded run
         try:
             st = check_config(res, d)
         except Abort:
             break
-        if st == "skipped":
+        if st == "skipped" and attempt == 0:
             print("  configuration now raises the documented ValueError (skipped)")
+        if res.failures:
+            break
     for f in res.failures[:10]:
         print("  still failing:", f["key"], f["what"][:300])
     return not res.failures
